@@ -57,15 +57,7 @@ func replay(raw json.RawMessage) (string, bool) {
 	}
 
 	// API
-	var obs []obsFile
-	ws, err := bufx.Workspace(ctx, bufx.MemBucket(c.Files), sel.SubDir, sel.Paths, sel.Excludes, bufx.NopProviders)
-	if err == nil {
-		image, berr := bufx.BuildWorkspaceImage(ctx, ws)
-		err = berr
-		if err == nil {
-			obs = observeImage(image)
-		}
-	}
+	obs, err := buildSelection(ctx, c.Files, sel)
 	lines = append(lines, fmt.Sprintf("api: image files=%d err=%v", len(obs), err))
 	switch {
 	case len(targets) == 0:
@@ -78,7 +70,7 @@ func replay(raw json.RawMessage) (string, bool) {
 				vs = append(vs, violation{"api/build/unexpected-error/" + normErr(err), err.Error()})
 			}
 		} else {
-			vs = append(vs, checkImage("api", &expectation{world: w, targets: targets, direct: direct}, obs, counters{})...)
+			vs = append(vs, replayCheck("api", &expectation{world: w, targets: targets, direct: direct}, sel, obs)...)
 		}
 	default:
 		if want, ok := expectedPositions(w, direct, ""); ok {
@@ -93,35 +85,44 @@ func replay(raw json.RawMessage) (string, bool) {
 	}
 
 	// CLI
-	if c.Phase == "cli" || c.Phase == "errors" {
+	if c.Phase == "cli" || c.Phase == "errors" || c.Phase == "options" || (c.Phase == "protofile" && c.Format != "") {
 		scratch, serr := os.MkdirTemp("", "verif-c01-")
 		if serr == nil {
 			defer os.RemoveAll(scratch)
 			dir := filepath.Join(scratch, "w")
 			if werr := writeWorld(dir, c.Files); werr == nil {
-				args := []string{"build", filepath.Join(dir, filepath.FromSlash(sel.SubDir)), "-o", "-#format=binpb"}
-				for _, p := range sel.Paths {
-					args = append(args, "--path", filepath.Join(dir, filepath.FromSlash(p)))
+				format := c.Format
+				if format == "" {
+					format = "binpb"
 				}
-				for _, e := range sel.Excludes {
-					args = append(args, "--exclude-path", filepath.Join(dir, filepath.FromSlash(e)))
-				}
+				point := cliPoint(format)
+				args := cliArgs(dir, sel, format)
 				res := bufx.RunCLI(ctx, nil, "", args...)
 				lines = append(lines, fmt.Sprintf("cli: exit=%d stdout=%d bytes stderr=%q", res.ExitCode, len(res.Stdout), strings.ReplaceAll(res.Stderr, scratch, "<scratch>")))
 				switch {
 				case len(targets) == 0:
 					if res.ExitCode == 0 {
-						vs = append(vs, violation{"cli/build/image-without-targets", "exit 0 although nothing is targeted"})
+						vs = append(vs, violation{point + "/build/image-without-targets", "exit 0 although nothing is targeted"})
 					}
 				case direct.OK:
 					if res.ExitCode != 0 {
 						if !selectionMayBeRejected(w, sel) {
-							vs = append(vs, violation{"cli/build/unexpected-exit", res.Stderr})
+							vs = append(vs, violation{point + "/build/unexpected-exit", res.Stderr})
 						}
-					} else if wire, derr := observeWire([]byte(res.Stdout)); derr != nil {
-						vs = append(vs, violation{"cli/build/undecodable-output", derr.Error()})
 					} else {
-						vs = append(vs, checkImage("cli", &expectation{world: w, targets: targets, direct: direct}, wire, counters{})...)
+						exp := &expectation{world: w, targets: targets, direct: direct}
+						var wire []obsFile
+						var derr error
+						if format == "binpb" {
+							wire, derr = observeWire([]byte(res.Stdout))
+						} else {
+							wire, exp.canon, derr = observeText(format, []byte(res.Stdout), direct)
+						}
+						if derr != nil {
+							vs = append(vs, violation{point + "/build/undecodable-output", derr.Error()})
+						} else {
+							vs = append(vs, replayCheck(point, exp, sel, wire)...)
+						}
 					}
 				default:
 					if want, ok := expectedPositions(w, direct, filepath.ToSlash(dir)); ok {
@@ -149,4 +150,27 @@ func replay(raw json.RawMessage) (string, bool) {
 		lines = append(lines, "no oracle violated")
 	}
 	return strings.Join(lines, "\n"), len(vs) > 0
+}
+
+// replayCheck is the image oracle plus, for a .proto file reference, the accepted wide reading of include_package_files.
+func replayCheck(point string, exp *expectation, sel Selection, obs []obsFile) []violation {
+	vs := checkImage(point, exp, obs, counters{})
+	if len(vs) == 0 || sel.ProtoFile == "" {
+		return vs
+	}
+	must, optional := refProtoFileTargets(exp.world, sel)
+	if len(optional) == 0 {
+		return vs
+	}
+	all := sortedCopy(append(append([]string{}, must...), optional...))
+	d := directCompile(exp.world.Texts(), all)
+	if !d.OK {
+		return vs
+	}
+	alt := *exp
+	alt.targets, alt.direct = all, d
+	if len(checkImage(point, &alt, obs, counters{})) == 0 {
+		return nil
+	}
+	return vs
 }
